@@ -304,4 +304,31 @@ def stepNoReset (tbl : List Dtor) (s : St) : Op → St
   | .release h => s.runSwitch tbl (s.hs h)
   | op => step tbl s op
 
+/-! ## The copy-then-release helper `<C_prefix>ShroudCopyArray`
+
+```
+const void *cxx_var = data->addr.base;
+int n = c_var_size < data->size ? c_var_size : data->size;
+n *= data->elem_len;
+memcpy(c_var, cxx_var, n);
+<C_memory_dtor_function>(&data->cxx);
+```
+Buffers are byte lists; an access outside a buffer is `none` (undefined behaviour). -/
+
+/-- `memcpy(dest, src, n)`: reads `src[0,n)`, writes `dest[0,n)` -/
+def memcpy (dest src : List Nat) (n : Nat) : Option (List Nat) :=
+  if n ≤ src.length ∧ n ≤ dest.length then some (src.take n ++ dest.drop n) else none
+
+/-- number of bytes `ShroudCopyArray` copies (destination of `destSize` elements, vector of
+    `srcSize` elements of `elemLen` bytes) -/
+def copyCount (destSize srcSize elemLen : Nat) : Nat :=
+  (if destSize < srcSize then destSize else srcSize) * elemLen
+
+def copyArray (dest src : List Nat) (destSize srcSize elemLen : Nat) : Option (List Nat) :=
+  memcpy dest src (copyCount destSize srcSize elemLen)
+
+/-- the clamp taken the wrong way round (for the sensitivity witness) -/
+def copyCountMax (destSize srcSize elemLen : Nat) : Nat :=
+  (if srcSize < destSize then destSize else srcSize) * elemLen
+
 end Shroud.Capsule
